@@ -8,7 +8,7 @@ open TapkeeVerif.Gen
 
 inductive Val where
   | int (i : Int)                       -- IndexType
-  | real (q : Rat)                      -- ScalarType: a double, i.e. an exact (dyadic) rational
+  | real (x : XReal)                    -- ScalarType: a double - an exact (dyadic) rational, NaN or ±inf
   | bool (b : Bool)
   | method (m : Meth)
   | neighbors (m : NbrMeth)
@@ -25,9 +25,9 @@ def Val.ty : Val → Ty
   | .other t => .other t
 
 /-- numeric content of an `int` / `real` value -/
-def Val.num? : Val → Option Rat
-  | .int i => some (i : Rat)
-  | .real q => some q
+def Val.num? : Val → Option XReal
+  | .int i => some (XReal.fin (i : Rat))
+  | .real x => some x
   | _ => none
 
 end TapkeeVerif.Front
